@@ -783,15 +783,34 @@ class PolyhedralTermList(TermList):  # noqa: WPS338
         logging.debug("Verifying refinement")
         logging.debug("LH term: %s", self)
         logging.debug("RH term: %s", other)
-        if other.lacks_constraints():
+        this, this_unsatisfiable = self._split_variable_free_terms()
+        that, that_unsatisfiable = other._split_variable_free_terms()
+        if this_unsatisfiable:
             return True
-        if self.lacks_constraints():
+        if that_unsatisfiable:
+            return this.is_empty()
+        if that.lacks_constraints():
+            return True
+        if this.lacks_constraints():
             return False
         variables, self_mat, self_cons, ctx_mat, ctx_cons = PolyhedralTermList.termlist_to_polytope(  # noqa: WPS236
-            self, other
+            this, that
         )
         logging.debug("Polytope is \n%s", self_mat)
         return PolyhedralTermList.verify_polytope_containment(self_mat, self_cons, ctx_mat, ctx_cons)
+
+    def _split_variable_free_terms(self) -> Tuple[PolyhedralTermList, bool]:
+        """
+        Set aside the terms that mention no variable (their coefficients cancelled or were zero).
+
+        Such a term is `0 <= c`: it holds everywhere when c >= 0 and nowhere otherwise.
+
+        Returns:
+            The terms that mention a variable, and whether a term without variables makes the list unsatisfiable.
+        """
+        with_variables = [term for term in self.terms if term.vars]
+        unsatisfiable = any(term.constant < 0 for term in self.terms if not term.vars)
+        return PolyhedralTermList(with_variables), unsatisfiable
 
     def is_empty(self) -> bool:
         """
@@ -800,8 +819,11 @@ class PolyhedralTermList(TermList):  # noqa: WPS338
         Returns:
             True if constraints cannot be satisfied.
         """
+        this, unsatisfiable = self._split_variable_free_terms()
+        if unsatisfiable:
+            return True
         _, self_mat, self_cons, _, _ = PolyhedralTermList.termlist_to_polytope(  # noqa: WPS236
-            self, PolyhedralTermList([])
+            this, PolyhedralTermList([])
         )
         logging.debug("Polytope is \n%s", self_mat)
         return PolyhedralTermList.is_polytope_empty(self_mat, self_cons)
